@@ -398,6 +398,11 @@ func (v *FnVC) applyContract(fr *frame, st *State, con *Contract, callee *ssa.Fu
 		v.extraFormats = nil
 	}
 	for _, c := range append(append([]*Clause{}, con.Names...), con.Ensures...) {
+		// called()/errSeen()/lastResult()/lastArg() in a postcondition speak about the calls the *callee* makes; the
+		// caller's observers say nothing about them, so such a clause is not assumed at a call site
+		if v.w.mentionsCallObservers(c.Expr, con.PkgShort, 0) {
+			continue
+		}
 		env := &specEnv{v: v, fr: sub, st: st, old: pre, result: res, resType: callee.Signature.Results()}
 		// a clause that mentions the callee's locals cannot be stated at a call site: it is simply not assumed
 		if t, ok := tryEvalBool(env, c.Expr); ok {
@@ -780,4 +785,57 @@ func (w *World) reaches(a, b *ssa.Function) bool {
 	}
 	w.reachMemo[k] = res
 	return res
+}
+
+func (w *World) mentionsCallObservers(e SExpr, pkgShort string, depth int) bool {
+	if e == nil || depth > 6 {
+		return false
+	}
+	any := func(xs ...SExpr) bool {
+		for _, x := range xs {
+			if x != nil && w.mentionsCallObservers(x, pkgShort, depth) {
+				return true
+			}
+		}
+		return false
+	}
+	switch x := e.(type) {
+	case SCall:
+		if id, ok := x.Fn.(SIdent); ok {
+			switch id.Name {
+			case "called", "errSeen", "lastResult", "lastArg":
+				return true
+			}
+			for _, key := range []string{pkgShort + "." + id.Name, id.Name} {
+				if sf := w.Contracts.SpecFuncs[key]; sf != nil && sf.Body != nil {
+					if w.mentionsCallObservers(sf.Body, pkgShort, depth+1) {
+						return true
+					}
+				}
+			}
+		}
+		if any(x.Fn) {
+			return true
+		}
+		return any(x.Args...)
+	case SBin:
+		return any(x.L, x.R)
+	case SUn:
+		return any(x.X)
+	case SSel:
+		return any(x.X)
+	case SIdx:
+		return any(x.X, x.I)
+	case SQuant:
+		return any(x.Lo, x.Hi, x.Body)
+	case SOld:
+		return any(x.X)
+	case SIte:
+		return any(x.C, x.A, x.B)
+	case SAssert:
+		return any(x.X)
+	case STypeOf:
+		return any(x.X)
+	}
+	return false
 }
